@@ -42,4 +42,17 @@ def check_C08(tier, seed):
     return history_check("C08", tier, seed, gen.DROP_SHAPES, [mon_c08], ["Soa.Props.C08"], ["debug", "release"])
 
 
-CHECKS = {"C01": check_C01, "C02": check_C02, "C03": check_C03, "C08": check_C08}
+def check_C04(tier, seed):
+    t0 = time.time()
+    L = 4 if tier == "quick" else 6
+    for p in ("debug", "release"): build_harness(p)
+    proof = prove("C04", ["Soa.Props.C04"])
+    scs = gen.index_exhaustive(gen.ALL_SHAPES, L)
+    suites = [run_suite("C04", scs, ["debug", "release"], [mon_c04], "index", compare_model=True)]
+    def widen():
+        yield run_suite("C04", gen.index_exhaustive(gen.ALL_SHAPES, 6), ["debug", "release"], [mon_c04], "widen-index", compare_model=False)
+    return finish("C04", tier, seed, t0, "proof", proof, suites, [mon_c04], widen=widen,
+                  extra_cov={"exhaustive": True, "explanation": "all (start,end) in {0..len+2, MAX-1, MAX}^2 x 7 forms (+ exhausted RangeInclusive) x 5 kind/mode pairs x get/index x lengths 0..=L x all shapes x debug/release"})
+
+
+CHECKS = {"C04": check_C04, "C01": check_C01, "C02": check_C02, "C03": check_C03, "C08": check_C08}
